@@ -1036,10 +1036,13 @@ def rule_comparator_ties(model):
     mk = model.func('DT_In', 'make_sortfunctions')
     n = 0
     seen = set()
-    for x in own_nodes(mk.node):
-        if not (isinstance(x, ast.Assign) and isinstance(x.value, ast.Name)
-                and 'nocase' in x.value.id):
-            continue
+    cands = []
+    for f in model.closure(mk):
+        for x in own_nodes(f.node):
+            if isinstance(x, (ast.Assign, ast.Return)) and isinstance(
+                    x.value, ast.Name) and 'nocase' in x.value.id:
+                cands.append(x)
+    for x in cands:
         res = model.resolve_global(mk.module, x.value.id)
         # nested definition inside a module-level `if`
         fn = None
